@@ -27,7 +27,7 @@ EXPLANATION = (
     "leaves the loop without yielding the partial tuple; every sequence class the classifier knows has its own isinstance test and no "
     "duck-typing test is reached before all of them have failed; the sequence predicates is_fill_compute_seq / is_fill_request_seq ask of an "
     "element exactly what the element predicate asks (any(map(pred, seq)) or the equivalent generator, no extra conjunct or filter), "
-    "and the common-type methods _compute/_request/__call__ start a branch only when it is reached (no list of started branches).  Does not decide the concrete output order/values nor "
+    "and the common-type methods _compute/_request/__call__ start a branch only when it is reached (no list of started branches); in lena.core a local that is None until an element is found is tested with `is None`, never by its truth value.  Does not decide the concrete output order/values nor "
     "bufsize-independence of results.")
 RULES = {
     "C03-a": "AGREE: classifier kinds = kinds dispatched in the block loop = kinds of the final pass; common-type tables within the kinds",
@@ -1161,6 +1161,7 @@ def check_zip(ctx):
 
 
 def check(ctx):
+    K.check_found_by_identity(ctx, "C03-a")
     ctx.instances_floor("C03-a/isinstance", K.check_isinstance_dispatch(ctx, "C03-a", ["lena.core.split", "lena.core.check_sequence_type", "lena.core.sequence", "lena.core.source", "lena.core.fill_compute_seq", "lena.core.fill_request_seq", "lena.core.fill_seq", "lena.core.adapters", "lena.core.meta", "lena.core.lena_sequence"], "a subclass of Source, Sequence, FillComputeSeq ..."), 10, "isinstance tests in lena.core")
     kinds = check_classifier(ctx)
     if kinds is None:
@@ -1197,6 +1198,8 @@ VARIANTS = [
     M("compute-every-block", SP, "                    if stopped:\n                        for result in seq.compute():\n                            yield result\n",
       "                    for result in seq.compute():\n                        yield result\n                    if stopped:\n", ["C03-b"]),
     M("active-alias", SP, "        active_seqs = self._seqs[:]", "        active_seqs = self._seqs", ["C03-d"]),
+    M("fc-element-found-by-truth", "lena/core/fill_compute_seq.py", "        if fc_el is None:", "        if not fc_el:", ["C03-a"]),
+    M("seq-with-el-found-by-truth", "lena/core/fill_compute_seq.py", "    if el is None:", "    if not el:", ["C03-a"]),
     M("call-starts-all-branches-first", SP, "        for seq in self._seqs:\n            for result in seq():\n                yield result",
       "        flows = [seq() for seq in self._seqs]\n        for result in itertools.chain.from_iterable(flows):\n            yield result", ["C03-b"]),
     M("compute-collects-branches-first", SP, "        for seq in self._seqs:\n            for val in seq.compute():\n                yield val",
